@@ -174,3 +174,6 @@ func Shard() int {
 	json.Unmarshal(raw, &v)
 	return v
 }
+
+// Choose returns a value in 0..n-1 that is concrete on every path (the engine forks n ways).
+func Choose(tag string, n int) int { return Concrete(IntRange(tag, 0, n-1)) }
